@@ -36,6 +36,10 @@ def hwDiv (x y : W) : Out W := if y = 0#64 then .hwdiv else .ok (x / y)
 /-- machine remainder `x % y` on `uint64` -/
 def hwMod (x y : W) : Out W := if y = 0#64 then .hwdiv else .ok (x % y)
 
+/-- the exported limit `num.MaxUint128` (`num.MaxInt128`, `num.MinInt128` are `I128.maxI128`, `I128.minI128`); the driver
+    prints the three for the `limit` lines, the harness prints the exported variables -/
+def maxU128 : U128 := ⟨0xffffffffffffffff#64, 0xffffffffffffffff#64⟩
+
 /-! ## kernels -/
 
 /-- `divmod128by64` with its four machine divisions by `vn1` (`u.hi / vn1`, `u.hi % vn1`, `un21 / vn1`, `un21 % vn1`) -/
